@@ -12,6 +12,7 @@ CONSTANTS
   DSeqs = {1, 11, 111, 1111}
   GSeqs = {1, 11, 111, 1111}
   OSeqs = {1, 11, 111, 1111}
-  MaxGroupsD = 12
+  MaxGroupsD = 16
+  MaxGroupsG = 12
 INIT ExportInit
 NEXT ExportNext
